@@ -32,7 +32,7 @@ def _place_key(pl):
     return (l, idx), rest
 
 
-def eval_match(body, start, slots, assume, discr_of, result_local=0, max_steps=400):
+def eval_match(body, start, slots, assume, discr_of, result_local=0, max_steps=400, stop_at_call=False):
     """slots: {(local, tuple idx|None): name}; assume: {name: 'T'|'F'|'N'|'O'}; discr_of: {'Bool': d, 'Null': d, 'other': d}"""
     env = {}  # local -> ('discr', int) | ('bool', bool)
 
@@ -107,10 +107,14 @@ def eval_match(body, start, slots, assume, discr_of, result_local=0, max_steps=4
                             raise Undecided("Bool payload not a bool")
                         return "T" if v[1] else "F"
                     return ("other", rv[3])
+                if rv[0] == "agg" and rv[1] == "adt":
+                    return ("adt", rv[2].split("::")[-1] + "::" + str(rv[3]))
                 if rv[0] == "use":
                     v = read_op(rv[1])
                     if v[0] == "bool":
                         return "T" if v[1] else "F"
+                    if v[0] == "int":
+                        return ("int", v[1])
                 raise Undecided("result assigned from %s" % rv[0])
             if dst[1]:
                 continue
@@ -150,6 +154,8 @@ def eval_match(body, start, slots, assume, discr_of, result_local=0, max_steps=4
                 if c == val:
                     nxt = tb
             bb = nxt
+        elif t[0] == "call" and stop_at_call:
+            return ("call", t[1].get("r") or t[1].get("d") or "?")
         else:
             raise Undecided("decision tree reaches a `%s` terminator in bb%d before producing the result" % (t[0], bb))
     raise Undecided("too many steps")
